@@ -4,6 +4,7 @@
 From Coq Require Import List ZArith Lia Bool Arith.
 Import ListNotations.
 Require Import Gram.Model.Term Gram.Model.DeBruijn Gram.Model.Eval Gram.Model.ModelB Gram.Spec.Typing Gram.Oracle.Infer.
+Require Export Gram.Proofs.ModelBEq.
 Require Import Gram.Proofs.DeBruijnLaws Gram.Proofs.ModelBProofs Gram.Proofs.InferSound Gram.Proofs.ConvProofs Gram.Proofs.ConvSym Gram.Proofs.StoreProofs.
 
 (* ---------- hole-freeness of groups ---------- *)
@@ -688,62 +689,8 @@ Lemma convb_S f G a b :
   match whnf f G a, whnf f G b with Some a', Some b' => convb_head f G a' b' | _, _ => None end.
 Proof. reflexivity. Qed.
 
-(* one layer of unify, after both sides have been weak-head normalised: the text of unifyB with the
-   recursive call abstracted.  (Unfolding unifyB itself costs the kernel minutes, because its local
-   definitions are re-expanded in each of the 196 branches; the detour through unifyB' costs nothing.) *)
-Definition unify_head (f : nat) (rec : storeB -> dctx -> term -> term -> option (bool * storeB))
-                      (s2 : storeB) (D : dctx) (w1 w2 : term) : option (bool * storeB) :=
-  let solve (id sh : nat) (other : term) (k : unit -> option (bool * storeB)) : option (bool * storeB) :=
-      match sshiftB f s2 other 0 (- Z.of_nat sh) with None => None | Some low =>
-      match low with
-      | None => k tt
-      | Some sol => match occursB f s2 id other with None => None | Some oc =>
-                    if oc then Some (false, s2) else Some (true, sset s2 id sol) end
-      end end in
-  let and2 (x : option (bool * storeB)) (y : storeB -> option (bool * storeB)) :=
-      match x with None => None | Some r => let '(u, s') := r in if u then y s' else Some (false, s') end in
-  let structural (_ : unit) : option (bool * storeB) :=
-    match w1, w2 with
-    | TType, TType | TInt, TInt | TBool, TBool | TTrue, TTrue | TFalse, TFalse => Some (true, s2)
-    | TVar i, TVar j => Some (Nat.eqb i j, s2)
-    | TLam i1 _ b1, TLam i2 _ b2 => if Bool.eqb i1 i2 then rec s2 (None :: D) b1 b2 else Some (false, s2)
-    | TPi i1 d1 b1, TPi i2 d2 b2 =>
-        if Bool.eqb i1 i2 then and2 (rec s2 D d1 d2) (fun s' => rec s' (None :: D) b1 b2) else Some (false, s2)
-    | TApp a1 b1, TApp a2 b2 => and2 (rec s2 D a1 a2) (fun s' => rec s' D b1 b2)
-    | TLit x, TLit y => Some (Z.eqb x y, s2)
-    | TNeg x, TNeg y => rec s2 D x y
-    | TBin o1 a1 b1, TBin o2 a2 b2 =>
-        if binop_eqbB o1 o2 then and2 (rec s2 D a1 a2) (fun s' => rec s' D b1 b2) else Some (false, s2)
-    | TIf c1 a1 b1, TIf c2 a2 b2 =>
-        and2 (rec s2 D c1 c2) (fun s' => and2 (rec s' D a1 a2) (fun s'' => rec s'' D b1 b2))
-    | _, _ => Some (false, s2)
-    end in
-  match w1, w2 with
-  | THole i1 h1, THole i2 h2 =>
-      if Nat.eqb i1 i2 && Nat.eqb h1 h2 then Some (true, s2)
-      else solve i1 h1 w2 (fun _ => solve i2 h2 w1 (fun _ => Some (false, s2)))
-  | THole i1 h1, _ => solve i1 h1 w2 (fun _ => Some (false, s2))
-  | _, THole i2 h2 => solve i2 h2 w1 (fun _ => Some (false, s2))
-  | _, _ => structural tt
-  end.
-
-Definition unify_body (f : nat) (rec : storeB -> dctx -> term -> term -> option (bool * storeB))
-                      (s : storeB) (D : dctx) (a b : term) : option (bool * storeB) :=
-  match syn_eqB f s a b with None => None | Some e =>
-  if e then Some (true, s) else
-  match whnfB f s D a with None => None | Some p => let '(w1, s1) := p in
-  match whnfB f s1 D b with None => None | Some q => let '(w2, s2) := q in
-  unify_head f rec s2 D w1 w2 end end end.
-
-Fixpoint unifyB' (fuel : nat) (s : storeB) (D : dctx) (a b : term) : option (bool * storeB) :=
-  match fuel with O => None | S f => unify_body f (unifyB' f) s D a b end.
-
-Lemma unifyB_eq : unifyB = unifyB'.
-Proof. reflexivity. Qed.
-
-Lemma unifyB_S f s D a b : unifyB (S f) s D a b = unify_body f (unifyB f) s D a b.
-Proof. rewrite unifyB_eq. reflexivity. Qed.
-
+(* one layer of unify (unify_head, unify_body, unifyB', unifyB_eq, unifyB_S) now lives in Proofs/ModelBEq.v,
+   re-exported below so that the names stay available to the files importing this one *)
 Definition unify_agrees (D : dctx) (a b : term) (r : bool) : Prop :=
   forall G, same_defs G (G_of_D D) -> forall f' r', convb f' G a b = Some r' -> r' = r.
 
